@@ -1,6 +1,6 @@
 SPECIFICATION Spec
 CONSTANTS
-  MaxU = 8
+  MaxU = 7
   Variant = "asis"
   Measures = {"JACCARD", "COSINE", "DICE", "OVERLAP"}
 INVARIANT SuffixSafe
